@@ -51,6 +51,17 @@ def deductive(tier="quick", seed=0):
                                  witness=None if ok else rep, replayed=not ok))
     except Exception as e:  # noqa: BLE001
         d.notes.append(f"native cross-check of the sync canaries failed: {type(e).__name__}: {e}")
+    t0 = time.time()
+    try:
+        fails = X.native_sync_monitor()
+        d.obligations.append(Obl(name="C02.F.solve.native-sync-monitor", function=f"{X.S}.solve", kind="F", backend="exact",
+                                 status="discharged" if not fails else "refuted", ms=(time.time() - t0) * 1000, detail="" if not fails else str(fails)[:2000],
+                                 clause="instrumented runs of the real solve() on 5 small targets (path4, star4, cycle5, K4, ladder): the SYNC relation "
+                                        "holds on the whole construction incl. _add_gates_from_str and the final sign loop (cross-check of the "
+                                        "relation and replay source for relaxed refutations; a bounded run, not part of the proof)",
+                                 witness=None if not fails else dict(failures=fails), replayed=bool(fails)))
+    except Exception as e:  # noqa: BLE001
+        d.notes.append(f"native sync monitor failed to run: {type(e).__name__}: {e}")
     for c in d.canaries:
         if c["refuted"] and not c["replayed"]:
             d.notes.append(f"canary {c['name']} refuted (structural / trace contract: no input-dependent counter-model to replay)")
